@@ -203,8 +203,8 @@ struct Fin {
     at: Option<u8>,
 }
 const FIN_DROP: Fin = Fin { mode: 0, at: None };
-const FIN_NAMES: [&str; 14] = ["drop", "fold", "fold(keeping the elements)", "for_each", "rfold", "rev().for_each", "count", "last", "by_ref().try_fold(break)", "for loop", "collect::<Vec>", "map().sum", "max_by_key", "by_ref().rev().take(k).for_each"];
-const FIN_API: [&str; 14] = ["drop", "fold", "fold", "for_each", "rfold", "rev", "count", "last", "try_fold", "next", "collect", "sum", "max_by_key", "rev"];
+const FIN_NAMES: [&str; 15] = ["drop", "fold", "fold(keeping the elements)", "for_each", "rfold", "rev().for_each", "count", "last", "by_ref().try_fold(break)", "for loop", "collect::<Vec>", "map().sum", "max_by_key", "by_ref().rev().take(k).for_each", "drop (the destructor of one remaining element panics)"];
+const FIN_API: [&str; 15] = ["drop", "fold", "fold", "for_each", "rfold", "rev", "count", "last", "try_fold", "next", "collect", "sum", "max_by_key", "rev", "drop"];
 /// does mode m run a harness callback that can panic?
 fn fin_has_callback(m: u8) -> bool {
     matches!(m, 1 | 2 | 3 | 4 | 5 | 9 | 11)
@@ -223,7 +223,9 @@ where
     let got: RefCell<Vec<u32>> = RefCell::new(Vec::new());
     let kept: RefCell<Vec<Own>> = RefCell::new(Vec::new());
     let at = fin.at.map(|k| k as usize);
-    let panics = fin_has_callback(mode) && at.map(|k| k < rem).unwrap_or(false);
+    // mode 14: nothing is handed out; the iterator is dropped and the destructor of its at-th remaining
+    // element panics -- the other remaining elements must still be dropped (exactly once)
+    let panics = (fin_has_callback(mode) || mode == 14) && at.map(|k| k < rem).unwrap_or(false);
     // the consumer's callback: notes what it was given, then gives up (unwinding with the element
     // in its hands), keeps the element, or drops it
     let cb = |o: Own, keep: bool| {
@@ -305,11 +307,18 @@ where
             it.by_ref().rev().take(k).for_each(|o| cb(o, true));
             drop(it);
         }
+        14 => {
+            if panics {
+                monitors::tag::arm_drop_panic(Some((f + at.unwrap()) as u32));
+            }
+            drop(it)
+        }
         _ => drop(it),
     });
+    monitors::tag::arm_drop_panic(None);
     // what the callback must have been given
     match mode {
-        6 | 7 | 12 => expect_given.clear(),
+        6 | 7 | 12 | 14 => expect_given.clear(),
         8 => expect_given.truncate(rem.min(at.unwrap_or(usize::MAX).saturating_add(1))),
         13 => expect_given.truncate(rem.min(at.unwrap_or(0))),
         _ => {
@@ -335,7 +344,7 @@ where
     }
     sh.f = b;
     let got = got.into_inner();
-    let ctx = || format!("ending the history in state (start {}, end {}) with {}{}", f, b, FIN_NAMES[mode as usize], match (fin_has_callback(mode), at) { (true, Some(k)) => format!(", the callback panicking on the element #{} it receives", k), (false, Some(k)) if mode == 8 => format!(", breaking on the element #{}", k), (false, Some(k)) if mode == 13 => format!(" with k = {}", k), _ => String::new() });
+    let ctx = || format!("ending the history in state (start {}, end {}) with {}{}", f, b, FIN_NAMES[mode as usize], match (fin_has_callback(mode), at) { (true, Some(k)) => format!(", the callback panicking on the element #{} it receives", k), (false, Some(k)) if mode == 14 => format!(": remaining element #{}", k), (false, Some(k)) if mode == 8 => format!(", breaking on the element #{}", k), (false, Some(k)) if mode == 13 => format!(" with k = {}", k), _ => String::new() });
     match (&r, panics) {
         (Err(p), false) => {
             keep_back(sh, kept, returned);
@@ -1051,7 +1060,7 @@ fn consume_jobs(cfg: &Config) -> Vec<ConsumeJob> {
             let rem = n - fp - bp;
             for mode in 1..FIN_NAMES.len() as u8 {
                 let mut ats: Vec<Option<u8>> = vec![None];
-                if fin_has_callback(mode) || mode == 8 || mode == 13 {
+                if fin_has_callback(mode) || mode == 8 || mode == 13 || mode == 14 {
                     for k in [0usize, 1, rem / 2, rem.saturating_sub(1), rem] {
                         let a = Some(k.min(255) as u8);
                         if !ats.contains(&a) {
@@ -1100,7 +1109,10 @@ fn run_consume(s: &mut Sub, cfg: &Config, jobs: &[ConsumeJob], i: u64) {
     s.saw(&format!("{}::IntoIter::{}", kind.to_lowercase(), FIN_API[j.fin.mode as usize]));
     s.saw(&format!("consumer:{}", FIN_NAMES[j.fin.mode as usize]));
     let rem = n - j.fp - j.bp;
-    let unwinds = fin_has_callback(j.fin.mode) && j.fin.at.map(|k| (k as usize) < rem).unwrap_or(false);
+    let unwinds = (fin_has_callback(j.fin.mode) || j.fin.mode == 14) && j.fin.at.map(|k| (k as usize) < rem).unwrap_or(false);
+    if unwinds && j.fin.mode == 14 {
+        s.saw("element destructor unwinds");
+    }
     if unwinds {
         s.saw("consumer callback unwinds");
     }
